@@ -527,6 +527,8 @@ def check_guarded(F, rep, R, cg, bodies):
         rep.note("undecided", "C20-R12: the token expander is inlined into the guarded function (direct recursion); the splice clauses are not decided on this shape")
     for tname in sorted(reentry):
         run_splice(rep, cg, tname, name, cycle_fns)
+    from rules.c20_splice import run_result_sites
+    run_result_sites(rep, cg, cycle_fns, name)
     from rules.c20_tables import run_tables
     run_tables(F, rep, R, cg, opener_fns, close_fns, sorted(f for f in verdicts if all(v[0] for v in verdicts[f])))
 
